@@ -164,11 +164,10 @@ Proof.
   destruct (create_none_ok s I Ec) as [s1 [H1 [I1 _]]]. rewrite H1. cbn. eauto.
 Qed.
 
-(* ---- one token: never a crash, invariant kept *)
-Lemma step_ok s n t : Inv s -> exists s1, step s n t = Ok s1 /\ Inv s1.
+(* ---- END *)
+Lemma step_end_ok s n bare ends : Inv s -> exists s1, step_end s n bare ends = Ok s1 /\ Inv s1.
 Proof.
-  intro I. destruct t as [bare ends|lbl|k name|lbl name|ty name|name|name|pro| |]; cbn [step].
-  - (* END *)
+  intro I. unfold step_end.
     destruct (eregex s) as [r|] eqn:Er; [|eauto].
     assert (Hc : cur s <> None) by (intro H; apply (i_cur_reg s I) in H; congruence).
     destruct (cur_kind_some s I Hc) as [k Hk]. rewrite Hk.
@@ -181,6 +180,13 @@ Proof.
     + destruct (end_scope_checked_ok s1 n I1) as [s2 [H2 [I2 _]]]. rewrite H2.
       destruct (end_scope_checked_ok s2 n I2) as [s3 [H3 [I3 _]]]. rewrite H3. cbn. eauto.
     + destruct (end_scope_checked_ok s1 n I1) as [s3 [H3 [I3 _]]]. rewrite H3. cbn. eauto.
+Qed.
+
+(* ---- one token: never a crash, invariant kept *)
+Lemma step_ok s n t : Inv s -> exists s1, step s n t = Ok s1 /\ Inv s1.
+Proof.
+  intro I. destruct t as [bare ends|lbl|k name|lbl name|ty name|name|name|pro| | |bare ends lbl]; cbn [step].
+  - (* END *) now apply step_end_ok.
   - (* labelled line *)
     destruct (eregex s) as [r|] eqn:Er; [|eauto].
     assert (Hc : cur s <> None) by (intro H; apply (i_cur_reg s I) in H; congruence).
@@ -206,6 +212,11 @@ Proof.
     now apply ensure_scope_ok.
   - now apply ensure_scope_ok.
   - eauto.
+  - (* labelled END DO *)
+    destruct (step_end_ok s n bare ends I) as [s1 [H1 I1]]. rewrite H1.
+    destruct (cur_kind s) as [[]|]; eauto.
+    destruct (labels s1) as [|top rest]; [eauto|].
+    destruct (_ && _); [|eauto]. eexists. split; [reflexivity|]. now apply inv_with_labels.
 Qed.
 
 Lemma run_ok l : forall s n, Inv s -> exists s1, run s n l = Ok s1 /\ Inv s1.
